@@ -1,22 +1,43 @@
-"""C17 - temporal statistics equal their stream-graph definitions (narrow structural clauses)."""
-from sa.core import Repo, Report
+"""C17 - temporal statistics equal their stream-graph definitions."""
+from sa.core import Repo, Report, AnalysisError
 from sa.kinds import check_kinds
-from sa.stats_check import check_inter_event, check_denominators
+from sa.ownership import check_purity
 
-EXPLANATION = ("static analysis, narrow: the four inter-event distributions are cross-checked as siblings (identical "
-               "global / per-node / per-pair code up to the node filter, which must be source / target / either as the "
-               "variant demands; gaps are time - previous time over the chronological stream and the previous event is "
-               "advanced wherever a gap is counted); coverage, node_contribution and edge_contribution divide by the "
-               "number of snapshot ids (times the number of nodes); edge_contribution measures closed intervals as end - "
-               "start + 1.  The numerical definitions themselves (uniformity, density, ...) are not decided")
+EXPLANATION = ("static analysis: the four inter-event distributions are interpreted abstractly on symbolic event streams "
+               "(symbolic nodes, times t+k so that gaps are concrete; ties, equal gaps, an event log with an emptied "
+               "bucket) and on pair timelines: global / per-node (either, source, target) / per-pair answers must be the "
+               "histogram of gaps between consecutive selected events; coverage, node_contribution, uniformity, "
+               "node_pair_uniformity, density, pair_density and node_presence are interpreted on a symbolic graph (path + "
+               "isolated node, two snapshot ids with a silent gap between them) in which presence of each pair at each id "
+               "is an uninterpreted predicate (all 16 valuations) and compared with the definitions of the property "
+               "statement as exact fractions; edge_contribution's closed-interval length is typed (end - start + 1); the "
+               "observers are shown pure.  node_density, snapshot_density and avg_number_of_nodes (C04) are not covered here")
+
+STATS = {"coverage", "node_contribution", "edge_contribution", "uniformity", "node_pair_uniformity", "density", "pair_density",
+         "node_density", "node_presence", "snapshot_density", "inter_event_time_distribution", "inter_in_event_time_distribution",
+         "inter_out_event_time_distribution"}
 
 
 def run(repo: Repo, tier, rep: Report):
-    n = check_inter_event(repo, rep)
-    rep.floor("sibling / event-role rule instances", n, 20)
-    m = check_denominators(repo, rep)
+    from sa.stats_interp import check_inter_event, check_ratio_statistics
+    impure = []
+
+    def addp(rule, construct, key, msg, line=0):
+        impure.append(construct)
+        rep.finding(rule, construct, key, msg + " - a memoised statistic goes stale when the graph is updated", line=line)
+    nq = check_purity(repo, addp, only=STATS)
+    rep.ob("W2.pure-query", "statistics", "%d statistic observers write nothing through self" % nq)
+    try:
+        n = check_inter_event(repo, rep)
+        rep.floor("inter-event cases interpreted", n, 60)
+        m = check_ratio_statistics(repo, rep)
+        rep.floor("ratio-statistic valuations interpreted", m, 80)
+    except AnalysisError:
+        if not impure:
+            raise
     k = check_kinds(repo, rep, functions={"edge_contribution"}, sink_kinds={"length"})
-    rep.floor("interval-length sinks", k, 1)
-    for o in rep.obligations[:4]:
-        rep.sample(dict(engine="S", rule=o.rule, construct=o.construct, what=o.what))
-    rep.assume("Event = (source, target, op, time); statistic formulas other than the listed clauses are outside this check")
+    rep.stats["exhaustive"] = False
+    rep.assume("Event = (source, target, op, time); streams of up to six events; timelines of up to three intervals",
+               "bounded graph shape (4 nodes, 2 snapshot ids); non-zero denominators (the property's own restriction)",
+               "definitions: coverage = sum_t |V_t| / (|T||V|); density = sum_{u<v} |T_uv| / sum_{u<v} |T_u & T_v|; uniformity = "
+               "sum |T_u & T_v| / sum |T_u | T_v|; node_contribution = |T_u| / |T|")
